@@ -63,6 +63,7 @@ class Program:
         self.enums = {k: dict(v) for k, v in STD_ENUMS.items()}
         self.enum_fields = {}
         self.struct_fields = {}
+        self.struct_defaults = {}
         self._scan_sources(repo)
         self.layouts = layouts or {}
         self._impl_cache = {}
@@ -103,6 +104,10 @@ class Program:
             if variants and name not in self.enums:
                 self.enums[name] = variants
                 self.enum_fields[name] = fields
+        for m in re.finditer(r'\bstruct\s+(\w+)\s*<([^>{(;]*)>', txt):
+            dfl = [x.split('=')[1].strip() for x in split_top(m.group(2)) if '=' in x]
+            if dfl and len(dfl) == len(split_top(m.group(2))):
+                self.struct_defaults.setdefault(m.group(1), dfl)
         for m in re.finditer(r'\bstruct\s+(\w+)\s*(?:<[^>{(;]*>)?\s*(?:where[^{]*)?\{', txt):
             body = self._balanced(txt, m.end() - 1)
             names = []
@@ -202,6 +207,18 @@ class Program:
                 if gab is not None and info[2] is not None and info[2] != gab:
                     continue
                 cands.append(f)
+            if len(cands) > 1:
+                # several impls of the trait for differently instantiated self types: compare the type arguments
+                ca = re.match(r'[\w:]+<(.+)>$', ty.strip())
+                cargs = [base_type_name(x) for x in split_top(ca.group(1))] if ca else (self.default_type_args(tyb) or [])
+                sel = []
+                for f in cands:
+                    ia = re.match(r'[\w:]+<(.+)>$', self.impl_info(f)[3].strip())
+                    iargs = [base_type_name(x) for x in split_top(ia.group(1))] if ia else (self.default_type_args(tyb) or [])
+                    if iargs == cargs:
+                        sel.append(f)
+                if sel:
+                    cands = sel
             return cands
         name = strip_generics(c)
         parts = name.split('::')
@@ -275,6 +292,9 @@ class Program:
         if len(out) != 1:
             raise EngineError('find(%s,%s): %d candidates %s' % (suffix, kw, len(out), [f.name[-50:] for f in out][:5]))
         return out[0]
+
+    def default_type_args(self, struct):
+        return self.struct_defaults.get(struct)
 
     # ------------------------------------------------------------------ enum tables
     def variant_disc(self, path):
